@@ -5,6 +5,7 @@ from concurrent.futures import ThreadPoolExecutor
 from ..core import rng_for, Problem, VERIF, OUT
 from .. import build, runner
 
+THOROUGH_SEEDS = 2   # the thorough tier repeats its staged workload over this many derived seeds
 RULE = ('(1) build matrix: the crate itself is compiled (cargo check in quick, cargo build + its own test suite in thorough) '
         'in the eleven configurations of ci/test_full.sh x {dev, release}; (2) transcript monitor: one deterministic script '
         '(a cross-section of every other property\'s workload, weighted toward the feature-conditional code: radix conversion '
